@@ -951,7 +951,7 @@ class Prop:
 
 Prop.required_theorems = [
     'validate_code_eq_rfc6811_outside_known', 'validate_code_eq_rfc6811_refuted', 'validate_none_iff_known',
-    'validate_matched_exact', 'noncovering_vrps_irrelevant', 'policy_condition_eq_rfc6811_outside_known', 'policy_condition_known', 'handover_iff_rpki_policy', 'assignment_accepts_iff_state_outside_known', 'origin_code_eq_rfc6811',
+    'validate_matched_exact', 'noncovering_vrps_irrelevant', 'policy_condition_eq_rfc6811_outside_known', 'policy_condition_known', 'handover_iff_rpki_policy', 'assignment_accepts_iff_state_outside_known', 'api_annotation_per_path_outside_known', 'origin_code_eq_rfc6811',
     'rfc6811_state_characterised', 'mask_bytes_eq_prefix_bits',
     'vrp_table_refines_set', 'vrp_history_refines_set', 'iter_lists_installed',
     'validate_pre_refuted_covering', 'validate_pre_refuted_more_specific', 'validate_pre_refuted_as_set',
